@@ -1,6 +1,7 @@
 package main
 
 import (
+	"sync/atomic"
 	"fmt"
 	"sort"
 	"strconv"
@@ -58,6 +59,11 @@ func startPipeline(t *testing.T) *pipeline {
 		cfg.Registry.Consul = config.Consul{
 			Addr: p.fc.Addr(), Scheme: "http", KVPath: kvPath, NoRouteHTMLPath: "/fabio/noroute.html", TagPrefix: "urlprefix-",
 			ServiceStatus: p.accepted, ServiceMonitors: 1 + 2*(hx.Shard()%2), PollInterval: p.poll,
+		}
+		if hx.Shard()%2 == 1 {
+			// fabio can register the aliases that routes ask for (register=<name>) with the agent
+			cfg.Registry.Consul.ServiceAddr, cfg.Registry.Consul.ServiceName = "127.0.0.1:9998", "fabio"
+			cfg.Registry.Consul.CheckScheme, cfg.Registry.Consul.CheckInterval, cfg.Registry.Consul.CheckTimeout = "http", time.Second, time.Second
 		}
 		if p.strict {
 			cfg.Registry.Consul.ChecksRequired = "all"
@@ -204,7 +210,7 @@ func (p *pipeline) expected(w *mWorld) map[triple]bool {
 		for _, line := range strings.Split(w.kv[k], "\n") {
 			f := strings.Fields(line)
 			switch {
-			case len(f) == 5 && f[1] == "add", len(f) == 7 && f[1] == "add" && f[5] == "opts":
+			case len(f) == 5 && f[1] == "add", len(f) == 7 && f[1] == "add" && (f[5] == "opts" || f[5] == "tags"):
 				set[triple{f[2], f[3], f[4], ""}] = true
 			case len(f) == 8 && f[1] == "weight" && f[4] == "weight" && f[6] == "tags":
 				// route weight <svc> <src> weight <w> tags "<tag>": the share is divided among the
@@ -238,6 +244,8 @@ func (p *pipeline) expected(w *mWorld) map[triple]bool {
 						delete(set, tr)
 					}
 				}
+			case len(f) == 5 && f[1] == "del":
+				delete(set, triple{f[2], f[3], f[4], ""})
 			case len(f) == 4 && f[1] == "del":
 				for tr := range set {
 					if tr.svc == f[2] && tr.src == f[3] {
@@ -318,11 +326,28 @@ func (p *pipeline) settle(want map[triple]bool, h0, k0 uint64) (string, bool) {
 			equalSince = time.Time{}
 		}
 		if time.Now().After(deadline) {
+			if !sawQuiet && d != "" {
+				// the watchers never came back for the registry's current state.  A slow machine gets
+				// there eventually; an update loop that is stuck for good (it blocks in a call it makes
+				// for every table, so nothing is taken from the watchers any more) never does.
+				if frozenLoop.Load() {
+					return d + "\n(the update loop stopped following the registry earlier in this process)", true
+				}
+				for end := time.Now().Add(40 * time.Second); time.Now().Before(end); time.Sleep(20 * time.Millisecond) {
+					if d = diff(want, actual(route.GetTable())); d == "" {
+						return "", true
+					}
+				}
+				frozenLoop.Store(true)
+				return d + "\n(48 s after the last change of the registry the update loop has still not asked for its current state: it no longer follows the registry)", true
+			}
 			return d, sawQuiet
 		}
 		time.Sleep(300 * time.Microsecond)
 	}
 }
+
+var frozenLoop atomic.Bool
 
 // settleAbsent waits until the watchers have seen the fake's current state and
 // none of the given triples is in the active table.
@@ -475,14 +500,25 @@ func runHistory(t *rapid.T, p *pipeline, withOdd bool) {
 	n := rapid.IntRange(5, hx.Pick(25, 100)).Draw(t, "nops")
 	transitions, faults := 0, 0
 	oddPresent := false
+	refusing := false
 	for i := 0; i < n; i++ {
 		before := map[string]bool{}
 		for k, in := range w.inst {
 			before[k] = p.healthy(w, in)
 		}
 		var op string
-		kind := rapid.IntRange(0, 13).Draw(t, "op")
+		kind := rapid.IntRange(0, 14).Draw(t, "op")
 		keys := sortedKeys(w.inst)
+		if kind == 14 {
+			// the local agent starts (or stops) refusing service registrations (ACL change): fabio's
+			// own alias registrations (register=<name> options) fail from now on; the table must
+			// follow the registry all the same
+			refusing = !refusing
+			fc.SetAgentRefuses(refusing)
+			check(fmt.Sprintf("the agent refuses registrations: %v", refusing))
+			hx.Class("history-with-agent-refusing-registrations")
+			continue
+		}
 		if kind == 13 {
 			// the Consul servers are restored from a snapshot: the indexes of its queries go back.
 			// Nothing in the registry changed; what changes afterwards must still be followed.
@@ -660,7 +696,43 @@ func runHistory(t *rapid.T, p *pipeline, withOdd bool) {
 			} else {
 				var lines []string
 				for j, m := 0, rapid.IntRange(1, 2).Draw(t, "nlines"); j < m; j++ {
-					switch rapid.IntRange(0, 2).Draw(t, "kvline") {
+					switch rapid.IntRange(0, 3).Draw(t, "kvline") {
+					case 3:
+						// the operator moves an instance to another scheme on the same address: the https
+						// target is added next to, or (with the del) instead of, the announced http one
+						var cands [][4]string
+						for _, k := range keys {
+							in := w.inst[k]
+							addr := in.Addr
+							if addr == "" {
+								addr = w.nodes[in.Node].Addr
+							}
+							for _, tg := range in.Tags {
+								if tg == "urlprefix-/a" || tg == "urlprefix-/b" {
+									var svctags []string
+									for _, x := range in.Tags {
+										if !strings.HasPrefix(x, "urlprefix-") {
+											svctags = append(svctags, x)
+										}
+									}
+									cands = append(cands, [4]string{in.Name, strings.TrimPrefix(tg, "urlprefix-"), fmt.Sprintf("%s:%d", addr, in.Port), strings.Join(svctags, ",")})
+								}
+							}
+						}
+						if len(cands) == 0 {
+							lines = append(lines, "# nothing to switch")
+							break
+						}
+						c := rapid.SampledFrom(cands).Draw(t, "switched")
+						if c[3] != "" && rapid.Bool().Draw(t, "with-the-instance's-tags") {
+							lines = append(lines, fmt.Sprintf("route add %s %s https://%s/ tags %q", c[0], c[1], c[2], c[3]))
+						} else {
+							lines = append(lines, fmt.Sprintf("route add %s %s https://%s/", c[0], c[1], c[2]))
+						}
+						if rapid.Bool().Draw(t, "and-del-http") {
+							lines = append(lines, fmt.Sprintf("route del %s %s http://%s/", c[0], c[1], c[2]))
+						}
+						hx.Class("history-with-operator-switching-a-scheme")
 					case 0:
 						lines = append(lines, fmt.Sprintf("route add manual-%d /m%d http://10.8.8.%d:80/", j, rapid.IntRange(0, 2).Draw(t, "mp"), j))
 					case 1:
